@@ -97,6 +97,7 @@ class Monitor:
         self.cur_class = None
         self.cur_desc = None
         self.maxima = {}              # named maxima observed (calibration / evidence)
+        self.observations = {}        # case index -> [(key, digest)] of observable outputs (see observe())
 
     # -- observation API used by property modules and monitors ---------------------------
     def count(self, key, n=1):
@@ -128,6 +129,15 @@ class Monitor:
                 'case': self.cur_case, 'class': self.cur_class,
                 'witness': jsonable(witness if witness is not None else self.cur_desc),
             })
+
+    def observe(self, key, value):
+        """record an observable output of the code under test for the current case; the repeat pass at the end of a worker re-runs
+        some cases in the same process and demands the same observations (catches state that leaks between calls: module-level
+        caches, memoisation keyed too coarsely, buffers reused across calls)"""
+        if self.cur_case is None:
+            return
+        h = hashlib.sha1(json.dumps(jsonable(value), sort_keys=True, default=repr).encode()).hexdigest()[:16]
+        self.observations.setdefault(self.cur_case, []).append((key, h))
 
     def inconclusive_because(self, why):
         if why not in self.inconclusive:
@@ -226,6 +236,24 @@ def worker_main(prop_id, tier, seed, shard, nshards, out_path, only_case=None):
             n = prop.N[tier] if only_case is None else 0
             for i in range(shard, n, nshards):
                 run_case(prop, i, mon, ctx)
+            # repeat pass: the first cases of this shard once more, in the same process, after everything else ran
+            first = [i for i in range(shard, n, nshards)][:getattr(prop, 'REPEAT', 12)]
+            if first and mon.observations and only_case is None:
+                before = {i: list(mon.observations.get(i, [])) for i in first}
+                saved = (mon.counters, mon.per_class, mon.evaluations, mon.samples, mon.nontrivial, mon.ambiguous, mon.violations, mon.violation_counts)
+                mon.counters, mon.per_class, mon.samples, mon.nontrivial, mon.violations, mon.violation_counts = {}, {}, [], set(), [], {}
+                for i in first:
+                    mon.observations.pop(i, None)
+                    run_case(prop, i, mon, ctx)
+                again = {i: list(mon.observations.get(i, [])) for i in first}
+                (mon.counters, mon.per_class, mon.evaluations, mon.samples, mon.nontrivial, mon.ambiguous, mon.violations, mon.violation_counts) = saved
+                for i in first:
+                    mon.count('repeat_pass_cases')
+                    if before[i] != again[i]:
+                        diff = [a[0] for a, b in zip(before[i], again[i]) if a != b] or ['number of observations']
+                        mon.cur_case, mon.cur_class, mon.cur_desc = i, 'repeat_pass', {'case': i}
+                        mon.violation('same-input-same-result-within-one-process', {'note': 'the case was run twice in the same worker process (at the start and after all other cases) and the code under test '
+                                      'returned different results', 'differing_observations': diff[:6]})
             if hasattr(prop, 'extra'):
                 mon.cur_case, mon.cur_class, mon.cur_desc = None, 'extra', None
                 try:
